@@ -128,6 +128,7 @@ def r2(ctx):
                          'the checks in its body are skipped for the remaining colours / pieces')
     rets = [st for st in s.stores if st.get('local') and st['target'] == ('ref', ('l', 0), ())]
     found = {}
+    chains = []
     nfalse = 0
     for st in rets:
         v = norm(st['value'])
@@ -154,6 +155,46 @@ def r2(ctx):
                                   sh(lits[-1][0], 300) if lits else 'unconditionally'), where(body, st['line']))
             else:
                 found.setdefault(cls.split(':')[0], []).append((st['line'], cls))
+                gb = [g['blk'] for g in conj if g['cond'] is not None]
+                if gb:
+                    chains.append((cls.split(':')[0], gb))
+    # no acceptance before every conjunct was tested: each rejection test (or the loop it sits in) dominates every `return true`
+    cfg = s.cfg
+    loops_ = cfg.loops()
+    # the entry of a test: from its deciding guard upwards through the guards that only say "there is something to test"
+    # (an Option / iterator discriminant, `x != y` on enum values such as piece kinds or `rights != NoRights`)
+    cdeps = cfg.control_deps()
+
+    def vacuity(a):
+        c = s.switches.get(a)
+        if c is None:
+            return False
+        c = norm(c)
+        return c[0] == 'discr' or (c[0] == 'call' and c[1] in ('core::cmp::PartialEq::ne', 'core::cmp::PartialEq::eq'))
+
+    def entry_of(g):
+        e, seen = g, set()
+        while True:
+            seen.add(e)
+            ps = [a for (a, _) in cdeps.get(e, ()) if a not in seen and vacuity(a) and cfg.dominates(a, e)]
+            if not ps:
+                return e
+            e = ps[0]
+    tests = [(cls, entry_of(gb[-1])) for cls, gb in chains]
+    for st in rets:
+        if norm(st['value']) != ('int', 1, 'bool'):
+            continue
+        skipped = []
+        for cls, g in tests:
+            if cfg.dominates(g, st['blk']) or any(g in blks and cfg.dominates(h, st['blk']) for h, blks in loops_.items()):
+                continue
+            if cls not in skipped:
+                skipped.append(cls)
+        if skipped:
+            ctx.violation(R, SANE + ':accept-bypass:' + skipped[0], 'is_sane returns true on a path that bypasses the test(s) %s: a position violating them is accepted' % (
+                ', '.join('"%s"' % x for x in skipped)), where(body, st['line']))
+        else:
+            ctx.ok(R, 'the accepting return is reached only after every rejection test (%d tests dominate it)' % len(tests), where(body, st['line']))
     need = ['piece-overlap', 'colour-overlap', 'combined-union', 'one-white-king', 'one-black-king', 'men-bound-white', 'men-bound-black',
             'ep-pawn', 'opponent-in-check', 'unmoved-rooks', 'king-home', 'kings-adjacent']
     desc = {'piece-overlap': 'two piece kinds on one square', 'colour-overlap': 'both colours on one square', 'combined-union': 'combined != union of the piece boards',
